@@ -90,6 +90,118 @@ Ltac tmpo := repeat match goal with
   | |- Forall _ [] => constructor
   end.
 
+Lemma exec_cons e fl x t m : exec e fl (x :: t) m = if ret m then m else exec e fl t (exec1 e fl x m).
+Proof. reflexivity. Qed.
+Lemma exec_cons' e fl x t m : ret m = false -> exec e fl (x :: t) m = exec e fl t (exec1 e fl x m).
+Proof. intros H. simpl. now rewrite H. Qed.
+Lemma exec_ret e fl l m : ret m = true -> exec e fl l m = m.
+Proof. intros H. destruct l; simpl; auto. now rewrite H. Qed.
+Lemma exec_cons_mk e fl x t c er f tr nd :
+  exec e fl (x :: t) (mkM c er f false tr nd) = exec e fl t (exec1 e fl x (mkM c er f false tr nd)).
+Proof. reflexivity. Qed.
+Lemma exec_ret_mk e fl l c er f tr nd : exec e fl l (mkM c er f true tr nd) = mkM c er f true tr nd.
+Proof. destruct l; reflexivity. Qed.
+Lemma exec_nil e fl m : exec e fl [] m = m.
+Proof. reflexivity. Qed.
+
+
+(* one-step unfolding equations (so that the symbolic execution below is a chain of rewrites) *)
+Section Unfold.
+Variables (e : env) (fl : faults).
+Lemma seq_exec b : forall m,
+  (fix seq (l : list fstmt) (m : mstate) : mstate :=
+     match l with [] => m | x :: t => if ret m then m else seq t (exec1 e fl x m) end) b m = exec e fl b m.
+Proof. induction b as [|x t IH]; intros m; simpl; [reflexivity|]. destruct (ret m); [reflexivity|apply IH]. Qed.
+Lemma u_split m : exec1 e fl SSplitPath m = set_nodir m (bare e). Proof. reflexivity. Qed.
+Lemma u_dirdot m : exec1 e fl SDirDot m = set_nodir m false. Proof. reflexivity. Qed.
+Lemma u_create m : exec1 e fl SCreateTemp m =
+  if fl_create fl then set_err m true else emit m (SysCreate (tmp e) (tino e) (negb (nodir m))). Proof. reflexivity. Qed.
+Lemma u_retiferr m : exec1 e fl SRetIfErr m = if err m then set_ret m else m. Proof. reflexivity. Qed.
+Lemma u_tmpname m : exec1 e fl STmpName m = m. Proof. reflexivity. Qed.
+Lemma u_write m : exec1 e fl SWrite m = set_err (emits m (map (SysWrite (tino e)) (wr fl))) (negb (wr_ok fl)). Proof. reflexivity. Qed.
+Lemma u_ifnoerr b m : exec1 e fl (SIfNoErr b) m = if err m then m else exec e fl b m.
+Proof. simpl. destruct (err m); auto; try apply seq_exec. Qed.
+Lemma u_ifstat f b m : exec1 e fl (SIfStat f b) m =
+  if fl_stat fl then m else match stat_mode f (cur m) (path e) with
+                            | Some md => exec e fl b (set_fi (emit m (SysStat f (path e))) (Some md)) | None => m end.
+Proof. simpl. destruct (fl_stat fl); auto; try (destruct (stat_mode f (cur m) (path e)); auto; try apply seq_exec). Qed.
+Lemma u_chmod m : exec1 e fl SChmodStat m =
+  match fi m with Some md => if fl_chmod fl then set_err m true else emit m (SysFchmod (tino e) md) | None => set_err m true end.
+Proof. reflexivity. Qed.
+Lemma u_close m : exec1 e fl SCloseKeepErr m =
+  if err m then emit m (SysClose (tino e)) else set_err (emit m (SysClose (tino e))) (fl_close fl). Proof. reflexivity. Qed.
+Lemma u_iferr b m : exec1 e fl (SIfErr b) m = if err m then exec e fl b m else m.
+Proof. simpl. destruct (err m); auto; try apply seq_exec. Qed.
+Lemma u_removetmp m : exec1 e fl SRemoveTmp m = if fl_remove fl then m else emit m (SysUnlink (tmp e)). Proof. reflexivity. Qed.
+Lemma u_return m : exec1 e fl SReturn m = set_ret m. Proof. reflexivity. Qed.
+Lemma u_renameelse b m : exec1 e fl (SRenameElse b) m =
+  if fl_rename fl then exec e fl b (set_err m true) else emit m (SysRename (tmp e) (path e)).
+Proof. simpl. destruct (fl_rename fl); auto; try apply seq_exec. Qed.
+Lemma k_emit c er f r t nd x : emit (mkM c er f r t nd) x = mkM (apply1 x c) er f r (t ++ [x]) nd. Proof. reflexivity. Qed.
+Lemma k_emits c er f r t nd l : emits (mkM c er f r t nd) l = mkM (apply_all l c) er f r (t ++ l) nd. Proof. reflexivity. Qed.
+Lemma k_err c er f r t nd b : set_err (mkM c er f r t nd) b = mkM c b f r t nd. Proof. reflexivity. Qed.
+Lemma k_ret c er f r t nd : set_ret (mkM c er f r t nd) = mkM c er f true t nd. Proof. reflexivity. Qed.
+Lemma k_fi c er f r t nd v : set_fi (mkM c er f r t nd) v = mkM c er v r t nd. Proof. reflexivity. Qed.
+Lemma k_nodir c er f r t nd b : set_nodir (mkM c er f r t nd) b = mkM c er f r t b. Proof. reflexivity. Qed.
+Lemma p_err c er f r t nd : err (mkM c er f r t nd) = er. Proof. reflexivity. Qed.
+Lemma p_ret c er f r t nd : ret (mkM c er f r t nd) = r. Proof. reflexivity. Qed.
+Lemma p_fi c er f r t nd : fi (mkM c er f r t nd) = f. Proof. reflexivity. Qed.
+Lemma p_cur c er f r t nd : cur (mkM c er f r t nd) = c. Proof. reflexivity. Qed.
+Lemma p_trace c er f r t nd : trace (mkM c er f r t nd) = t. Proof. reflexivity. Qed.
+Lemma p_nodir c er f r t nd : nodir (mkM c er f r t nd) = nd. Proof. reflexivity. Qed.
+End Unfold.
+
+Ltac norm := repeat (rewrite ?u_split, ?u_dirdot, ?u_create, ?u_retiferr, ?u_tmpname, ?u_write,
+                   ?u_ifnoerr, ?u_ifstat, ?u_chmod, ?u_close, ?u_iferr, ?u_removetmp, ?u_return, ?u_renameelse,
+                   ?k_emit, ?k_emits, ?k_err, ?k_ret, ?k_fi, ?k_nodir, ?p_err, ?p_ret, ?p_fi, ?p_cur, ?p_trace, ?p_nodir;
+                   cbv beta iota delta [negb fl_create wr wr_ok fl_stat fl_chmod fl_close fl_remove fl_rename]).
+Ltac sx := norm; first [ rewrite exec_nil | rewrite exec_ret by reflexivity | rewrite exec_cons' by reflexivity ]; norm.
+
+(* the run, made explicit: which calls are made and whether an error is reported, by fault pattern *)
+Definition plan (e : env) (fl : faults) (m : N) : list sys * bool :=
+  if fl_create fl then ([], true) else
+  let pre := SysCreate (tmp e) (tino e) true :: map (SysWrite (tino e)) (wr fl) in
+  let cleanup := if fl_remove fl then [] else [SysUnlink (tmp e)] in
+  if negb (wr_ok fl) then (pre ++ [SysClose (tino e)] ++ cleanup, true) else
+  if fl_stat fl then
+    (if fl_close fl then (pre ++ [SysClose (tino e)] ++ cleanup, true)
+     else if fl_rename fl then (pre ++ [SysClose (tino e)] ++ cleanup, true)
+     else (pre ++ [SysClose (tino e); SysRename (tmp e) (path e)], false))
+  else if fl_chmod fl then (pre ++ [SysStat true (path e); SysClose (tino e)] ++ cleanup, true)
+  else
+    (if fl_close fl then (pre ++ [SysStat true (path e); SysFchmod (tino e) m; SysClose (tino e)] ++ cleanup, true)
+     else if fl_rename fl then (pre ++ [SysStat true (path e); SysFchmod (tino e) m; SysClose (tino e)] ++ cleanup, true)
+     else (pre ++ [SysStat true (path e); SysFchmod (tino e) m; SysClose (tino e); SysRename (tmp e) (path e)], false)).
+
+Lemma mrun_plan e fl s old m : wf0 e s old m ->
+  trace (mrun e fl s) = fst (plan e fl m) /\ err (mrun e fl s) = snd (plan e fl m) /\
+  cur (mrun e fl s) = apply_all (trace (mrun e fl s)) s.
+Proof.
+  intros WF. pose proof WF as (R & Hne & Ht & Hi).
+  destruct fl as [c w wok st ch cl rm rn]. unfold mrun, model_wfb, plan, start.
+  cbn [fl_create wr wr_ok fl_stat fl_chmod fl_close fl_remove fl_rename].
+  set (s1 := apply1 (SysCreate (tmp e) (tino e) true) s).
+  set (W := map (SysWrite (tino e)) w).
+  set (s2 := apply_all W s1).
+  assert (SO1 : same_off e s s1) by (apply same_off_step; [apply same_off_refl|simpl; auto]).
+  assert (SO2 : same_off e s s2) by (apply same_off_all; [exact SO1|apply writes_tmp_only]).
+  assert (St : stat_mode true s2 (path e) = Some m) by (unfold stat_mode; rewrite (read_same_off e s s2 old m WF SO2); reflexivity).
+
+  Ltac leaf s1 W s2 St :=
+    repeat (progress (norm; try fold s1; try fold W; try fold s2; rewrite ?St; norm;
+                      try first [ rewrite exec_nil | rewrite exec_ret_mk | rewrite exec_cons_mk ]));
+    cbv beta iota delta [fst snd negb];
+    (split; [unfold W; simpl; rewrite <- ?app_assoc; simpl; reflexivity|]);
+    (split; [reflexivity|]);
+    unfold s2, s1, W, apply_all; simpl; rewrite ?fold_left_app; reflexivity.
+  destruct c; [leaf s1 W s2 St|].
+  destruct wok; [|destruct rm; leaf s1 W s2 St].
+  destruct st.
+  - destruct cl; [destruct rm; leaf s1 W s2 St|]. destruct rn; [destruct rm; leaf s1 W s2 St|leaf s1 W s2 St].
+  - destruct ch; [destruct rm; leaf s1 W s2 St|].
+    destruct cl; [destruct rm; leaf s1 W s2 St|]. destruct rn; [destruct rm; leaf s1 W s2 St|leaf s1 W s2 St].
+Qed.
+
 Lemma run_shape e fl s old m : wf0 e s old m ->
   let r := mrun e fl s in
   cur r = apply_all (trace r) s /\
@@ -100,51 +212,52 @@ Lemma run_shape e fl s old m : wf0 e s old m ->
   else Forall (tmp_only e) (trace r) /\ err r = true /\ (fl_remove fl = false -> ents (cur r) (tmp e) = None).
 Proof.
   intros WF. pose proof WF as (R & Hne & Ht & Hi).
-  destruct fl as [c w wok st ch cl rm rn]. unfold mrun, model_wfb, succeeds. simpl fl_create. simpl wr_ok.
-  simpl fl_stat. simpl fl_chmod. simpl fl_close. simpl fl_rename. simpl wr. simpl fl_remove.
+  destruct (mrun_plan e fl s old m WF) as (Tr & Er & Cu). cbv zeta. split; [exact Cu|].
+  rewrite Cu, Tr, Er. clear Tr Er Cu.
+  destruct fl as [c w wok st ch cl rm rn]. unfold plan, succeeds.
+  cbn [fl_create wr wr_ok fl_stat fl_chmod fl_close fl_remove fl_rename].
   destruct c.
-  { (* CreateTemp fails *) cbn. split; [reflexivity|]. split; [constructor|]. split; [reflexivity|]. intros _. exact Ht. }
+  { cbn. split; [constructor|]. split; [reflexivity|]. intros _. exact Ht. }
   set (s1 := apply1 (SysCreate (tmp e) (tino e) true) s).
   set (W := map (SysWrite (tino e)) w).
   set (s2 := apply_all W s1).
-  assert (T1 : tmp_only e (SysCreate (tmp e) (tino e) true)) by (simpl; auto).
-  assert (SO1 : same_off e s s1) by (apply same_off_step; [apply same_off_refl|exact T1]).
-  assert (SO2 : same_off e s s2) by (apply same_off_all; [exact SO1|apply writes_tmp_only]).
   assert (I1 : inos s1 (tino e) = Some (mkI [] 384%N)) by (unfold s1; simpl; apply set_same).
   assert (I2 : inos s2 (tino e) = Some (mkI (concat w) 384%N)) by (unfold s2, W; rewrite (writes_inode e w s1 [] 384%N I1); reflexivity).
   assert (E1 : ents s1 (tmp e) = Some (EFile (tino e))) by (unfold s1; simpl; apply set_same).
-  assert (St : stat_mode true s2 (path e) = Some m) by (unfold stat_mode; rewrite (read_same_off e s s2 old m WF SO2); reflexivity).
-  cbn [exec exec1 ret err start fl_create fl_stat fl_chmod fl_close fl_remove fl_rename wr wr_ok
-       emit emits set_err set_ret set_fi set_nodir nodir cur trace fi negb andb orb app].
-  fold s1. fold W. fold s2.
-  destruct wok.
-  2:{ (* the write fails *)
-      cbn. fold s1 W s2. destruct rm; cbn; fold s1 W s2.
-      - split; [unfold s2, s1, apply_all; simpl; rewrite ?fold_left_app; reflexivity|]. split; [unfold W; tmpo|].
-        split; [reflexivity|discriminate].
-      - split; [unfold s2, s1, apply_all; simpl; rewrite ?fold_left_app; reflexivity|]. split; [unfold W; tmpo|].
-        split; [reflexivity|]. intros _. simpl. apply set_same. }
-  assert (IC : forall md, inos (apply1 (SysFchmod (tino e) md) s2) (tino e) = Some (mkI (concat w) md))
-    by (intros md; simpl; rewrite I2; simpl; apply set_same).
   assert (E2 : ents s2 (tmp e) = Some (EFile (tino e))).
   { unfold s2, W. clear -E1. revert E1. generalize s1. induction w as [|x w IH]; intros s0 E; simpl; auto.
     apply IH. simpl. destruct (inos s0 (tino e)); simpl; auto. }
-  assert (EC : forall md, ents (apply1 (SysFchmod (tino e) md) s2) (tmp e) = Some (EFile (tino e)))
-    by (intros md; simpl; rewrite I2; simpl; exact E2).
-  destruct st, ch, cl, rm, rn;
-    cbn [exec exec1 ret err start fl_create fl_stat fl_chmod fl_close fl_remove fl_rename wr wr_ok
-         emit emits set_err set_ret set_fi set_nodir nodir cur trace fi negb andb orb app];
-    fold s1; fold W; fold s2; rewrite ?St;
-    cbn [exec exec1 ret err start fl_create fl_stat fl_chmod fl_close fl_remove fl_rename wr wr_ok
-         emit emits set_err set_ret set_fi set_nodir nodir cur trace fi negb andb orb app];
-    (split; [unfold s2, s1, apply_all; simpl; rewrite ?fold_left_app; reflexivity|]).
-  all: try (split; [unfold W; tmpo|split; [reflexivity|intros Hrm; try discriminate; simpl; apply set_same]]).
-  all: match goal with |- exists A, SysCreate ?a ?b ?c :: ?l ++ [?r] = _ /\ _ => exists (SysCreate a b c :: l) end.
-  all: split; [reflexivity|]; split; [unfold W; tmpo|]; split; [reflexivity|].
-  all: unfold apply_all; simpl; rewrite ?fold_left_app; simpl;
-       change (fold_left (fun s x => apply1 x s) W (apply1 (SysCreate (tmp e) (tino e) true) s)) with s2.
-  all: try (split; [exact E2|exact I2]).
-  all: try (split; [apply EC|apply IC]).
+  assert (PRE : forall X, apply_all ((SysCreate (tmp e) (tino e) true :: W) ++ X) s = apply_all X s2)
+    by (intros X; rewrite apply_all_app; reflexivity).
+  (* a failing run: only the temporary file was touched, the error is reported, the temporary name is gone *)
+  assert (FAIL : forall X cleanup, Forall (tmp_only e) X -> (cleanup = [] /\ rm = true \/ cleanup = [SysUnlink (tmp e)]) ->
+            Forall (tmp_only e) ((SysCreate (tmp e) (tino e) true :: W) ++ X ++ cleanup) /\ true = true /\
+            (rm = false -> ents (apply_all ((SysCreate (tmp e) (tino e) true :: W) ++ X ++ cleanup) s) (tmp e) = None)).
+  { intros X cleanup FX [[-> ->]| ->].
+    - split; [|split; [reflexivity|discriminate]]. rewrite app_nil_r. unfold W. tmpo. exact FX.
+    - split; [|split; [reflexivity|]].
+      + unfold W. tmpo; auto.
+      + intros _. rewrite PRE, apply_all_app. simpl. apply set_same. }
+  assert (CL : rm = true /\ (if rm then [] else [SysUnlink (tmp e)]) = [] \/ (if rm then [] else [SysUnlink (tmp e)]) = [SysUnlink (tmp e)])
+    by (destruct rm; auto).
+  assert (CL' : (if rm then [] else [SysUnlink (tmp e)]) = [] /\ rm = true \/ (if rm then [] else [SysUnlink (tmp e)]) = [SysUnlink (tmp e)])
+    by (destruct rm; auto).
+  destruct wok; cbn [negb andb orb].
+  2:{ apply (FAIL [SysClose (tino e)]); [tmpo|exact CL']. }
+  destruct st; cbn [negb andb orb].
+  - destruct cl; cbn [negb andb orb]; [apply (FAIL [SysClose (tino e)]); [tmpo|exact CL']|].
+    destruct rn; cbn [negb andb orb]; [apply (FAIL [SysClose (tino e)]); [tmpo|exact CL']|].
+    exists ((SysCreate (tmp e) (tino e) true :: W) ++ [SysClose (tino e)]).
+    split; [rewrite <- app_assoc; reflexivity|]. split; [unfold W; tmpo|]. split; [reflexivity|].
+    rewrite PRE. simpl. split; [exact E2|exact I2].
+  - destruct ch; cbn [negb andb orb]; [apply (FAIL [SysStat true (path e); SysClose (tino e)]); [tmpo|exact CL']|].
+    destruct cl; cbn [negb andb orb];
+      [apply (FAIL [SysStat true (path e); SysFchmod (tino e) m; SysClose (tino e)]); [tmpo|exact CL']|].
+    destruct rn; cbn [negb andb orb];
+      [apply (FAIL [SysStat true (path e); SysFchmod (tino e) m; SysClose (tino e)]); [tmpo|exact CL']|].
+    exists ((SysCreate (tmp e) (tino e) true :: W) ++ [SysStat true (path e); SysFchmod (tino e) m; SysClose (tino e)]).
+    split; [rewrite <- app_assoc; reflexivity|]. split; [unfold W; tmpo|]. split; [reflexivity|].
+    rewrite PRE. simpl. rewrite I2. simpl. split; [exact E2|apply set_same].
 Qed.
 
 Lemma Forall_firstn {A} (P : A -> Prop) k l : Forall P l -> Forall P (firstn k l).
@@ -205,7 +318,7 @@ Proof.
     assert (W : wr_ok fl = true).
     { unfold succeeds in S. destruct (fl_create fl), (wr_ok fl); simpl in S; auto; discriminate. }
     rewrite <- (Hw W). destruct WF as (_ & Hne & _). unfold new_mode. eapply read_after_rename; eauto.
-  - destruct Sh as [F Er]. split; auto. destruct CS as [CS|(X & _)]; [exact CS|discriminate].
+  - destruct Sh as (F & Er & _). split; auto. destruct CS as [CS|(X & _)]; [exact CS|discriminate].
 Qed.
 
 Theorem mode_kept e fl s old m : wf0 e s old m -> concat (wr fl) = target e -> succeeds fl = true -> fl_stat fl = false ->
@@ -221,6 +334,36 @@ Theorem mode_lost_if_stat_fails e fl s old m : wf0 e s old m -> concat (wr fl) =
 Proof.
   intros WF Hw S St. pose proof (run_result e fl s old m WF (fun _ => Hw)) as R. simpl in R.
   rewrite S in R. unfold new_mode in R. rewrite St in R. apply R.
+Qed.
+
+(* a run that reports an error leaves no temporary file behind (unless os.Remove itself fails); in particular
+   when only the rename fails *)
+Theorem no_temp_left_on_failure e fl s old m : wf0 e s old m -> succeeds fl = false -> fl_remove fl = false ->
+  ents (cur (mrun e fl s)) (tmp e) = None.
+Proof.
+  intros WF S Rm. destruct (run_shape e fl s old m WF) as [_ Sh]. fold (mrun e fl s) in Sh.
+  rewrite S in Sh. destruct Sh as (_ & _ & H). auto.
+Qed.
+
+Theorem no_temp_left_on_rename_failure e fl s old m : wf0 e s old m -> fl_rename fl = true -> fl_remove fl = false ->
+  err (mrun e fl s) = true /\ ents (cur (mrun e fl s)) (tmp e) = None /\ read (cur (mrun e fl s)) (path e) = Some (old, m).
+Proof.
+  intros WF Rn Rm.
+  assert (S : succeeds fl = false) by (unfold succeeds; rewrite Rn; simpl; apply andb_false_r).
+  pose proof (run_shape e fl s old m WF) as [Cu Sh]. fold (mrun e fl s) in Sh, Cu. rewrite S in Sh.
+  destruct Sh as (F & Er & H). split; [exact Er|]. split; [auto|].
+  rewrite Cu. eapply read_same_off; eauto. apply same_off_all; [apply same_off_refl|exact F].
+Qed.
+
+(* the temporary file is always created next to the path (never in os.TempDir()) *)
+Theorem temp_next_to_file e fl s old m n i sd : wf0 e s old m -> In (SysCreate n i sd) (trace (mrun e fl s)) -> sd = true.
+Proof.
+  intros WF H. destruct (run_shape e fl s old m WF) as [_ Sh]. fold (mrun e fl s) in Sh.
+  assert (T : forall l, Forall (tmp_only e) l -> In (SysCreate n i sd) l -> sd = true).
+  { intros l F Hin. rewrite Forall_forall in F. apply F in Hin. simpl in Hin. tauto. }
+  destruct (succeeds fl).
+  - destruct Sh as (A & Et & FA & _). rewrite Et in H. apply in_app_or in H as [H|[H|[]]]; [eauto|discriminate].
+  - destruct Sh as (F & _). eauto.
 Qed.
 
 (* nothing but the path and the temporary name changes, at any crash point *)
@@ -270,3 +413,16 @@ Proof. rewrite run_wfb_mrun. apply mode_lost_if_stat_fails. Qed.
 Lemma g_others_untouched e fl s old m k n : wf0 e s old m -> n <> tmp e -> n <> path e ->
   ents (crash_state e fl s k) n = ents s n.
 Proof. unfold crash_state. rewrite run_wfb_mrun. apply others_untouched. Qed.
+
+Lemma g_no_temp_left_on_failure e fl s old m : wf0 e s old m -> succeeds fl = false -> fl_remove fl = false ->
+  ents (cur (run_wfb e fl s)) (tmp e) = None.
+Proof. rewrite run_wfb_mrun. apply no_temp_left_on_failure. Qed.
+
+Lemma g_no_temp_left_on_rename_failure e fl s old m : wf0 e s old m -> fl_rename fl = true -> fl_remove fl = false ->
+  err (run_wfb e fl s) = true /\ ents (cur (run_wfb e fl s)) (tmp e) = None /\
+  read (cur (run_wfb e fl s)) (path e) = Some (old, m).
+Proof. rewrite run_wfb_mrun. apply no_temp_left_on_rename_failure. Qed.
+
+Lemma g_temp_next_to_file e fl s old m n i sd : wf0 e s old m ->
+  In (SysCreate n i sd) (trace (run_wfb e fl s)) -> sd = true.
+Proof. rewrite run_wfb_mrun. apply temp_next_to_file. Qed.
